@@ -359,10 +359,20 @@ COMBINATORS = {
 }
 
 
-def combine_once(merge, ret, left, right, comb_name):
-    """-> discrepancy or None"""
+class _Operand:
+    def __init__(self, entry):
+        self.entry = entry
+
+
+def combine_once(merge, ret, left, right, comb_name, cells=""):
+    """-> discrepancy or None.  cells: "l" / "r" / "lr" = that operand is a table cell (a proxy) holding the same history
+    instead of a stand-alone entry (only for histories without an initial candidate)"""
     a = build(left[0], merge, ret, left[1], left[2])
     b = build(right[0], merge, ret, right[1], right[2])
+    if "l" in cells:
+        a = _Operand(build("t1dict", merge, ret, None, left[2]).cell())
+    if "r" in cells:
+        b = _Operand(build("t3", merge, ret, None, right[2]).cell())
     comb = COMBINATORS[comb_name]
     va, ia = a.entry.value(), set(a.entry.infos())
     vb, ib = b.entry.value(), set(b.entry.infos())
@@ -404,6 +414,13 @@ def run_combine(shard):
                     viols.append(viol(case, "combine", d))
                 if len(samples) < 1 and left[2] and right[2]:
                     samples.append(case)
+                if left[0] == "entry" and right[0] == "entry":
+                    # the same pair with the left / right / both operands living in table cells
+                    for cells in ("l", "r", "lr"):
+                        n += 1
+                        d = combine_once(merge, ret, left, right, name, cells)
+                        if d and len(viols) < 8:
+                            viols.append(viol(dict(case, cells=cells), "combine", f"operand(s) {cells} as table cells: {d}"))
     # never-written table cells combined
     for kind in ("t1dict", "t3"):
         s = build(kind, merge, ret, None, [])
@@ -492,7 +509,7 @@ def replay(v):
         d = combine_once(case["merge"], case["retention"],
                          (l["object"], tuple(l["init"]) if l.get("init") else None, l["history"]),
                          (r["object"], tuple(r["init"]) if r.get("init") else None, r["history"]),
-                         case["combinator"])
+                         case["combinator"], case.get("cells", ""))
         return {"violated": bool(d), "detail": d}
     if kind == "combine_unwritten":
         s = build(case["object"], case["merge"], case["retention"], None, [])
